@@ -10,18 +10,18 @@
 From Coq Require Import List Bool Arith NArith.
 Import ListNotations.
 From TarpcV Require Import Base Transport Client ClientS ClientMon ClientSpec ClientWake
-  ClientWakeSpec ClientWakeProofs ClientProofsG1Fuel.
+  ClientWakeSpec ClientWakeProofs ClientWakeSettles ClientProofsG1Fuel.
 Local Open Scope N_scope.
 
 (* (ii-a) Once the dispatch has ended with an error, or has been dropped, and the system has
    been driven until nothing acts any more, no call is left unresolved - for every configuration
    and every sequence of events and settles (fewer than 2^64 of them). *)
 Theorem C02_dead_resolved : forall c ops,
-  wno_wrap ops -> settled c ops ->
+  wno_wrap ops ->
   let s := wfinal c (ops ++ [WSettle]) in
   (exists a, finished s = Some (DErr a)) \/ dropped s = true ->
   forall i k, nth_error (calls s) i = Some k -> is_live (c_phase k) = false.
-Proof. exact c02_dead_holds. Qed.
+Proof. exact c02_dead_unconditional. Qed.
 
 (* (ii-b) While the dispatch is running on a transport that accepts writes (buffer sizes and
    limits >= 1): after driving the system to quiescence, a call that is still unresolved is
@@ -32,7 +32,6 @@ Proof. exact c02_dead_holds. Qed.
 Theorem C02_quiescent_resolved : forall c ops,
   wno_wrap ops ->
   (1 <= cf_qcap c)%nat -> (1 <= cf_maxif c)%nat ->
-  settled c ops ->
   let s := wfinal c (ops ++ [WSettle]) in
   writable (tr s) = true -> st_inbox (tr s) = [] -> st_eof (tr s) = false ->
   finished s = None -> dropped s = false ->
@@ -40,7 +39,13 @@ Theorem C02_quiescent_resolved : forall c ops,
     inflight s <> []
     /\ (forall id w, In (id, w) (timers s) -> now s < w)
     /\ (In (c_id k) (map fst (inflight s)) \/ length (inflight s) = max_if s).
-Proof. exact c02_quiescent_holds. Qed.
+Proof. exact c02_quiescent_unconditional. Qed.
+
+(* (i') driving to quiescence always terminates: a settle never runs out of its rounds (linear
+   in the number of calls and queue lengths) nor of dispatch fuel - for every configuration and
+   every sequence of events and settles *)
+Theorem C02_settles : forall c ops, wno_wrap ops -> settled c ops.
+Proof. exact c02_settles_holds. Qed.
 
 (* (iii) poll_total: every poll of the dispatch returns within fuel linear in the queue
    lengths (shared with C14) *)
@@ -73,3 +78,4 @@ Proof. vm_compute. split; reflexivity. Qed.
 Print Assumptions C02_dead_resolved.
 Print Assumptions C02_quiescent_resolved.
 Print Assumptions C02_poll_total.
+Print Assumptions C02_settles.
